@@ -8,7 +8,17 @@ C09 plug-in for gen_tables.py: emits into lean/Ptk/Gen/C09.lean the constants of
     `example : Gen.C09.findWordRe = "..." := by decide`;
   * `InMemoryClipboard.__init__`'s default `max_size`;
   * `vi.vi_register_names`;
-  * the threshold / replacement of `KeyPressEvent.arg` ("don't exceed a million").
+  * the named command (or handler function) behind every Emacs key chord the correspondence types
+    (`emacsKeyCommands`: which readline command `C-k`, `M-d`, `c-delete`, `C-w`, ... are bound to in
+    load_basic_bindings / load_emacs_bindings / load_emacs_shift_selection_bindings) and behind the
+    Vi keys (`viKeyHandlers`) — pinned in lean/Ptk/Model/C09Ext.lean, so that rebinding a key to another
+    command breaks the build before any case runs;
+  * two behaviour probes for repairs proposed by other checks that touch code modelled here, so that
+    the model follows the tree before and after they land:
+    `killWordNegFixed` (proposed_fixes/C01-kill-word-negative-arg.diff: kill-word with a negative
+    argument kills backward instead of passing a negative count to Buffer.delete) and
+    `unknownRegDeleteFixed` (proposed_fixes/C08-unknown-register-delete.diff: `"Ad` with a register
+    name outside vi_register_names does nothing instead of deleting text that is stored nowhere).
 """
 from __future__ import annotations
 
@@ -34,5 +44,106 @@ def generate() -> None:
     body += f"def defaultMaxSize : Nat := {int(sig.parameters['max_size'].default)}\n\n"
     body += "/-- `vi.vi_register_names` -/\n"
     body += f"def viRegisterNames : String := {G.lstr(vi.vi_register_names)}\n\n"
+    body += "/-- behaviour probe: kill-word with a negative argument kills backward -/\n"
+    body += f"def killWordNegFixed : Bool := {'true' if probe_kill_word_neg() else 'false'}\n\n"
+    body += "/-- behaviour probe: a delete operator with an unknown register name does nothing -/\n"
+    body += f"def unknownRegDeleteFixed : Bool := {'true' if probe_unknown_reg_delete() else 'false'}\n\n"
+    body += "/-- key chord -> `source:command` of every binding with exactly these keys, in load order -/\n"
+    body += "def emacsKeyCommands : List (String × String) := [\n"
+    body += ",\n".join(f"  ({G.lstr(k)}, {G.lstr(v)})" for k, v in emacs_key_commands()) + "]\n\n"
+    body += "/-- Vi key sequence -> handler function(s) bound to it in load_vi_bindings -/\n"
+    body += "def viKeyHandlers : List (String × String) := [\n"
+    body += ",\n".join(f"  ({G.lstr(k)}, {G.lstr(v)})" for k, v in vi_key_handlers()) + "]\n\n"
     body += "end Ptk.Gen.C09\n"
     G.write("C09.lean", body)
+
+
+EMACS_CHORDS = [("c-k",), ("c-u",), ("escape", "d"), ("c-delete",), ("c-w",), ("escape", "c-h"), ("c-y",),
+                ("escape", "y"), ("c-f",), ("c-b",), ("c-@",), ("escape", "w"), ("s-left",), ("s-right",),
+                ("c-h",), ("escape",)]
+VI_CHORDS = [("x",), ("X",), ("s",), ("D",), ("C",), ("d", "d"), ("y", "y"), ("Y",), ("c", "c"), ("S",), ("p",),
+             ("P",), ('"', "<any>", "p"), ('"', "<any>", "P"), ("v",), ("V",), ("c-v",)]
+
+
+def _key_str(k) -> str:
+    return str(getattr(k, "value", k))
+
+
+def _bindings_with(kb, keys):
+    from prompt_toolkit.key_binding.bindings import named_commands
+    names = {id(b.handler): n for n, b in named_commands._readline_commands.items()}
+    out = []
+    for b in kb.bindings:
+        if tuple(_key_str(k) for k in b.keys) == keys:
+            name = names.get(id(b.handler), b.handler.__qualname__.split(".")[-1])
+            if name != "_ignore":
+                out.append(name)
+    return out
+
+
+def emacs_key_commands():
+    from prompt_toolkit.key_binding.bindings import basic, emacs
+    srcs = [("basic", basic.load_basic_bindings()), ("emacs", emacs.load_emacs_bindings()),
+            ("shift", emacs.load_emacs_shift_selection_bindings())]
+    rows = []
+    for keys in EMACS_CHORDS:
+        found = [f"{src}:{n}" for src, kb in srcs for n in _bindings_with(kb, keys)]
+        rows.append((" ".join(keys), ",".join(found)))
+    return rows
+
+
+def vi_key_handlers():
+    from prompt_toolkit.key_binding.bindings import vi
+    kb = vi.load_vi_bindings()
+    rows = []
+    for keys in VI_CHORDS:
+        rows.append((" ".join(keys), ",".join(_bindings_with(kb, keys))))
+    return rows
+
+
+def probe_kill_word_neg() -> bool:
+    """`kill-word` with argument -1 on 'foo |bar baz qux': True when nothing AFTER the cursor is
+    deleted (kills backward), False when text after the cursor disappears"""
+    from types import SimpleNamespace
+
+    from prompt_toolkit.buffer import Buffer
+    from prompt_toolkit.clipboard import InMemoryClipboard
+    from prompt_toolkit.document import Document
+    from prompt_toolkit.key_binding.bindings.named_commands import get_by_name
+
+    b = Buffer(document=Document("foo bar baz qux", 4))
+    ev = SimpleNamespace(current_buffer=b, arg=-1, is_repeat=False, data="",
+                         app=SimpleNamespace(clipboard=InMemoryClipboard(),
+                                             emacs_state=SimpleNamespace(last_kill_word_killed=False),
+                                             output=SimpleNamespace(bell=lambda: None)))
+    try:
+        get_by_name("kill-word").handler(ev)
+    except Exception:
+        return False
+    return b.text.endswith("bar baz qux")
+
+
+def probe_unknown_reg_delete() -> bool:
+    """`"Ad` on a selection: True when the text is left alone"""
+    from types import SimpleNamespace
+
+    from prompt_toolkit.buffer import Buffer
+    from prompt_toolkit.clipboard import InMemoryClipboard
+    from prompt_toolkit.document import Document
+    from prompt_toolkit.key_binding.bindings import vi
+    from prompt_toolkit.key_binding.key_processor import KeyPress
+    from prompt_toolkit.selection import SelectionState, SelectionType
+
+    try:
+        kb = vi.load_vi_bindings()
+        hs = [b for b in kb.bindings if tuple(_key_str(k) for k in b.keys) == ('"', "<any>", "d")
+              and b.handler.__name__ == "_operator_in_selection"]
+        b = Buffer(document=Document("abc", 1))
+        b.selection_state = SelectionState(0, SelectionType.CHARACTERS)
+        ev = SimpleNamespace(current_buffer=b, key_sequence=[KeyPress('"'), KeyPress("A"), KeyPress("d")], arg=1,
+                             app=SimpleNamespace(clipboard=InMemoryClipboard(),
+                                                 vi_state=SimpleNamespace(named_registers={}, input_mode=None)))
+        hs[0].handler(ev)
+        return b.text == "abc"
+    except Exception:
+        return False
